@@ -84,10 +84,13 @@ def ops():
     return O
 
 
-CLONES = ['copy', 'copy.copy', 'deepcopy', 'view'] + ['pickle%d' % p for p in range(6)]
+CLONES = ['copy', 'copy.copy', 'deepcopy', 'view'] + ['pickle%d' % p for p in range(6)] + ['reload']
+# 'reload': the "copy" is a second load of the same file taken through the same history -- two loads are equal and independent
 
 
-def clone(d, how):
+def clone(d, how, base=None, hist=None):
+    if how == 'reload':
+        return build(base, hist)
     if how == 'copy':
         return d.copy()
     if how == 'copy.copy':
@@ -106,9 +109,13 @@ def mutate(x):
     if len(x.range()):
         x.range(0)[0] = -777.0
         x.range(0)[1] = 777.5
-    x.text['NEWKEY'] = 'v'
-    x.text['$TOT'] = 'changed'
-    x.analysis['NEWKEY'] = 'v'
+    _MUT[0] += 1            # another annotation every time: a remembered earlier one would show
+    x.text['NEWKEY%d' % _MUT[0]] = 'v'
+    x.text['$TOT'] = 'changed%d' % _MUT[0]
+    x.analysis['NEWKEY%d' % _MUT[0]] = 'v'
+
+
+_MUT = [0]
 
 
 def meta_only(f):
@@ -158,7 +165,7 @@ def check_clones(res, base, hist, one_base):
         try:
             with warnings.catch_warnings():
                 warnings.simplefilter('ignore')
-                c = clone(d, how)
+                c = clone(d, how, base, hist)
         except Exception as e:
             res.violation('clone-raises:%s:%s' % (how, type(e).__name__), '%s raised %s: %s' % (what, type(e).__name__, e), one)
             continue
@@ -182,7 +189,7 @@ def check_clones(res, base, hist, one_base):
             continue
         # and the other way round on a fresh pair
         d2 = build(base, hist)
-        c2 = clone(d2, how)
+        c2 = clone(d2, how, base, hist)
         g0 = fp(c2)
         mutate(d2)
         g1 = fp(c2)
@@ -193,9 +200,9 @@ def check_clones(res, base, hist, one_base):
         # a second clone taken after the first one was changed still equals the original (nothing of the first is remembered)
         d3 = build(base, hist)
         h0 = fp(d3)
-        c3 = clone(d3, how)
+        c3 = clone(d3, how, base, hist)
         mutate(c3)
-        c4 = clone(d3, how)
+        c4 = clone(d3, how, base, hist)
         h4 = fp(c4)
         a, b = (meta_only(h0), meta_only(h4)) if how == 'view' else (h0, h4)
         if a != b:
@@ -380,13 +387,18 @@ def run_case(c):
         edits.append(('channel renamed', l2))
     for name, l2 in edits:
         either = False
-        if isinstance(l2, tuple):
-            refl = write(l2[0])
-            either = len(l2) > 2
-            other = write(l2[1])
-        else:
-            other = write(l2)
-            refl = ref
+        try:
+            if isinstance(l2, tuple):
+                refl = write(l2[0])
+                either = len(l2) > 2
+                other = write(l2[1])
+            else:
+                other = write(l2)
+                refl = ref
+        except Exception as e:
+            res.violation('file-eq:load-raises:%s' % type(e).__name__, 'a well-formed file written to the path of an earlier, different file (%s) could not be loaded: %s: %s' % (
+                name, type(e).__name__, e), dict(c))
+            continue
         if either and l2[2] == 'must-equal':
             if not (refl == other) or (refl != other) or hash(refl) != hash(other):
                 res.violation('file-eq:identical-unequal', '%s compare unequal' % name, dict(c))
